@@ -158,7 +158,7 @@ SerdeRel(op, a, r) ==
 \* Integer projections of floating-point results (computed by the recorder in f64 from the native values).
 \* The model knows the exact rational inputs, so it knows which side of each threshold they are on.
 IsIntTup(x, n) == x.t = "Tup" /\ Len(x.c) = n
-ProjOps == {"slerp_proj", "nlerp_proj", "slerp_axis_proj", "look_proj", "arc_proj", "unit_roundtrip", "normalize_native", "turn_div_exact", "full_turn_value", "euler_proj"}
+ProjOps == {"slerp_proj", "nlerp_proj", "slerp_axis_proj", "look_proj", "arc_proj", "small_rot_proj", "norm_proj", "trig_big_proj", "tiny_inv_proj", "slab_proj", "unit_roundtrip", "normalize_native", "turn_div_exact", "full_turn_value", "euler_proj"}
 ProjRel(op, k, a, r) ==
   LET wide == k = "f32" IN
   CASE op \in {"slerp_proj", "nlerp_proj"} ->
@@ -204,6 +204,31 @@ ProjRel(op, k, a, r) ==
                  /\ \A i \in {6, 7} : RLe(<<1, 1000>>, Sc(a, i)) /\ RLe(Sc(a, i), <<1000, 1>>)
          /\ r.c[1].c[1] <= 1000                                    \* r(a) = b to a thousandth of the small angle
          /\ r.c[2].c[1] <= 64 /\ r.c[3].c[1] <= 1000
+    \* C05 / C06 at small angles (1e-3 .. 1e-8 rad): every representation, built from the angle, inverted, squared or
+    \* converted to another representation first, still moves v by the angle about the axis.  a = <<T type, T route, n, v, I>>
+    \* (3-D: n, v exact orthogonal unit vectors) or <<T type, T route, v, I>> (2-D); r = <<distance from the Rodrigues image in
+    \* millionths of the angle, deviation of the image from unit length in eps>>
+    [] op = "small_rot_proj" ->
+         LET ty == Sc(a, 1)  route == Sc(a, 2) IN
+         /\ IsIntTup(r, 2)
+         /\ IF ty \in {"Basis2", "Matrix2"}
+            THEN Dot(a[3].c, a[3].c) = One /\ route \in {"direct", "invert", "compose"}
+            ELSE /\ ty \in {"Quaternion", "Matrix3", "Basis3", "Matrix4"}
+                 /\ Dot(a[3].c, a[3].c) = One /\ Dot(a[4].c, a[4].c) = One /\ Dot(a[3].c, a[4].c) = Zero
+                 /\ route \in {"direct", "from_angle", "rotate_vector", "invert", "compose", "via_quat", "via_mat3", "via_basis3", "via_mat4"}
+         /\ r.c[1].c[1] <= 1000 /\ r.c[2].c[1] <= 64
+    \* C11 close to unit length: normalising x (1 + g), x an exact unit vector, gives x back to rounding
+    [] op = "norm_proj" -> /\ IsIntTup(r, 4) /\ Dot(a[1].c, a[1].c) = One /\ \A i \in 1..4 : r.c[i].c[1] <= 16
+    \* C13 far from the first turn: the functions of Rad(x) are the real functions of x, whatever the number of turns
+    [] op = "trig_big_proj" -> /\ IsIntTup(r, 5) /\ \A i \in 1..5 : r.c[i].c[1] <= 64
+    \* C08 with a small scale: the model checks the premise (non-zero; for a Decomposed transform not negligibly small; unit
+    \* rotation), the recorder reports <<inverse exists, vector round trip, point round trip>> in eps
+    [] op = "tiny_inv_proj" ->
+         /\ IsIntTup(r, 3) /\ Sc(a, 2) # Zero /\ Dot(a[3].c, a[3].c) = One
+         /\ (Sc(a, 1) \in {"DecQ", "Dec3", "DecQ_vector"} => ~RAbsLe(Sc(a, 2), <<1, 1000000>>))
+         /\ r.c[1].c[1] = TRUE /\ r.c[2].c[1] <= 256 /\ r.c[3].c[1] <= 256
+    \* C10 with far = near (1 + g): accepted (near # far), near plane to -1 and far plane to +1 (in units of eps / g)
+    [] op = "slab_proj" -> /\ IsIntTup(r, 3) /\ RGt(Sc(a, 2), Zero) /\ r.c[1].c[1] = TRUE /\ r.c[2].c[1] <= 64 /\ r.c[3].c[1] <= 64
     [] op = "unit_roundtrip" -> r.t = "I" /\ r.c[1] <= 4       \* relative error at most 4 machine epsilons   (C13)
     [] op = "normalize_native" -> /\ IsIntTup(r, 4) /\ r.c[1].c[1] = TRUE /\ r.c[2].c[1] = TRUE
                                   /\ r.c[3].c[1] <= (IF wide THEN 20000 ELSE 10) /\ r.c[4].c[1] <= (IF wide THEN 20000 ELSE 10)
